@@ -28,6 +28,7 @@ type c13mon struct {
 	alphabet    []string
 	causes      []string
 	mqttDisc    int // MQTT DISCONNECTs written so far
+	stalled     bool
 }
 
 var c13causes = map[string]string{}
@@ -69,6 +70,9 @@ func (m *c13mon) After(g *gw.GW, ev string, sn []gw.SNOut, mq []gw.MQOut, setup 
 	name, isCause := c13causes[ev]
 	if !isCause {
 		m.depth++
+		if ev == gw.EvStall {
+			m.stalled = true
+		}
 		for _, o := range mq {
 			if o.P.Type == refmqtt.DISCONNECT {
 				m.mqttDisc++
@@ -153,7 +157,7 @@ func (m *c13mon) After(g *gw.GW, ev string, sn []gw.SNOut, mq []gw.MQOut, setup 
 }
 
 func (m *c13mon) Key() string {
-	return fmt.Sprintf("prev=%s out=%d d=%d cause=%s", m.prevState, m.outstanding, m.depth, m.cause)
+	return fmt.Sprintf("prev=%s out=%d d=%d cause=%s stalled=%t", m.prevState, m.outstanding, m.depth, m.cause, m.stalled)
 }
 func (m *c13mon) Class() string {
 	if m.cause != "" {
@@ -167,10 +171,23 @@ func (m *c13mon) Next(g *gw.GW) []string {
 		return nil
 	}
 	a := append([]string{}, m.causes...)
+	if m.stalled {
+		// a session blocked writing to a broker that does not read cannot see client datagrams (backpressure);
+		// it must still end on shutdown and when the broker connection dies
+		a = nil
+		for _, c := range m.causes {
+			if n := c13causes[c]; n == "gateway-shutdown" || n == "broker-closes" {
+				a = append(a, c)
+			}
+		}
+	}
 	if m.depth >= m.maxDepth {
 		return a
 	}
 	for _, e := range m.alphabet {
+		if e == gw.EvStall && (m.stalled || g.Dialed == 0) {
+			continue
+		}
 		if p, isB := brokerPkt(e); isB && p.Type == refmqtt.CONNACK && m.outstanding <= 0 {
 			continue
 		}
@@ -196,6 +213,8 @@ func c13alphabet() []string {
 		gw.EvC("DISCONNECT(5)", gw.Disconnect(5)),
 		gw.EvC("DISCONNECT(30)", gw.Disconnect(30)),
 		gw.EvC("PINGREQ", gw.Pingreq("c1")),
+		gw.EvAdvance(6 * time.Second),
+		gw.EvStall,
 	}
 }
 
@@ -296,7 +315,7 @@ func runTermination(t *testing.T, prop, test string) {
 	}
 	rep := explore.NewReport(prop, "model_checking")
 	gw.BFSCheck(rep, specs, gw.BFSOpts{Test: test}, 240, 1500)
-	rep.Coverage["rule"] = "BFS (depth 4, thorough 5) over a protocol alphabet that reaches disconnected / connecting (auth, will) / active / asleep with and without pinger / awake / pending client QoS 1 / pending broker QoS 1 and 2 / pending gateway REGISTER; in every reached state every termination cause (gateway shutdown, client DISCONNECT, broker close, broker garbage, undecodable datagram, unsupported packet, going to sleep) is injected, 300 ms of virtual time pass, and the monitor checks: return within one poll interval, broker connection closed, DISCONNECT datagrams to the client, MQTT DISCONNECT only for the client's plain DISCONNECT, no session goroutine alive after firing all remaining timers"
+	rep.Coverage["rule"] = "BFS (depth 4, thorough 5) over a protocol alphabet that reaches disconnected / connecting (auth, will) / active / asleep with and without pinger / awake / pending client QoS 1 / pending broker QoS 1 and 2 / pending gateway REGISTER / an expired sleep period (6 s pass) / a send to a broker that has stopped reading (blocked write); in every reached state every termination cause (gateway shutdown, client DISCONNECT, broker close, broker garbage, undecodable datagram, unsupported packet, going to sleep) is injected, 300 ms of virtual time pass, and the monitor checks: return within one poll interval, broker connection closed, DISCONNECT datagrams to the client, MQTT DISCONNECT only for the client's plain DISCONNECT, no session goroutine alive after firing all remaining timers"
 	explore.RunScenarios(rep, gw.Scenarios(t, c13e2(prop)), explore.ScenarioOpts{Test: test, QuickBound: 2, ThoroughFrom: 2, ThoroughMax: 3,
 		QuickBudget: 90 * time.Second, ThoroughBudge: 8 * time.Minute})
 	rep.Assumptions = []string{"BFS part: default schedule (the cause racing with an in-flight event is explored by the E2 part of C13 where present)", "virtual time; pending send time is zero in the in-memory model"}
